@@ -39,9 +39,11 @@ type c17Cfg struct {
 }
 
 type c17Case struct {
-	Cfg    c17Cfg        `json:"config"`
-	App    world.AppSpec `json:"application"`
-	Queues []string      `json:"existingQueues"`
+	// ReloadedFrom, when set, is the configuration the scheduler was started with; Cfg was then loaded by a reload
+	ReloadedFrom *c17Cfg       `json:"reloadedFrom,omitempty"`
+	Cfg          c17Cfg        `json:"config"`
+	App          world.AppSpec `json:"application"`
+	Queues       []string      `json:"existingQueues"`
 }
 
 func (r c17Rule) yaml(ind string) string {
@@ -444,9 +446,21 @@ func ruleNames(c c17Cfg) string {
 	return strings.Join(s, ",")
 }
 
-func (r *c17Run) runConfig(cfg c17Cfg, apps []world.AppSpec, carryOver bool) {
+func (r *c17Run) runConfig(cfg c17Cfg, apps []world.AppSpec, carryOver bool, via *c17Cfg) {
 	scn := &world.Scenario{Name: "c17", Configs: []string{cfg.yaml()}, Apps: apps, Alphabet: []string{"APP_ADD", "APP_REMOVE", "CLEAN_QUEUES"}}
+	if via != nil {
+		// the scheduler starts with another document (same queues and rules, every ACL set) and is reloaded to cfg: the
+		// active configuration is cfg, what the first document granted is gone
+		scn.Configs = []string{via.yaml(), cfg.yaml()}
+	}
 	w, err := world.New(scn)
+	if err == nil && via != nil {
+		if st := w.Apply(world.Op{K: "CONFIG", N: 1}); st.Result != "ok" {
+			w.Close()
+			r.rejectedCfg++
+			return
+		}
+	}
 	if err != nil {
 		// configuration rejected by validation: not a placement case
 		r.rejectedCfg++
@@ -461,7 +475,7 @@ func (r *c17Run) runConfig(cfg c17Cfg, apps []world.AppSpec, carryOver bool) {
 		app := &apps[ai]
 		pre := w.Snapshot()
 		tree := c17Tree(pre.Queues)
-		c := c17Case{Cfg: cfg, App: *app, Queues: sortedKeys(pre.Queues)}
+		c := c17Case{Cfg: cfg, App: *app, Queues: sortedKeys(pre.Queues), ReloadedFrom: via}
 		want := cfg.place(tree, app)
 		st := w.Apply(world.Op{K: "APP_ADD", A: app.ID})
 		r.evals++
@@ -574,7 +588,16 @@ func c17Shard(tier string, shard, n int) *CustomResult {
 			skipped++
 			continue
 		}
-		run.runConfig(cfg, append([]world.AppSpec{}, apps...), false)
+		run.runConfig(cfg, append([]world.AppSpec{}, apps...), false, nil)
+		if i%2 == 0 {
+			// every second configuration also as the target of a reload from a document that grants everything
+			via := c17Cfg{Rules: cfg.Rules, Default: cfg.Default, Submit: map[string]string{}, Admin: map[string]string{}}
+			for _, q := range []string{"root", "root.a", "root.p", "root.p.x"} {
+				via.Submit[q] = "*"
+				via.Admin[q] = "u1,u2,u3 g1,g2"
+			}
+			run.runConfig(cfg, append([]world.AppSpec{}, apps...), false, &via)
+		}
 		creates := false
 		for _, r := range cfg.Rules {
 			if r.Create || r.Parent != nil && r.Parent.Create {
@@ -583,7 +606,7 @@ func c17Shard(tier string, shard, n int) *CustomResult {
 		}
 		if creates {
 			// only configurations that can create queues have trees that differ from the initial one
-			run.runConfig(cfg, append([]world.AppSpec{}, apps...), true)
+			run.runConfig(cfg, append([]world.AppSpec{}, apps...), true, nil)
 		}
 	}
 	if len(run.samples) == 0 {
